@@ -21,5 +21,26 @@ check("C10", "other",
       "sibling cross-check (writer vs reader) by symbolic pattern extraction over typed AST: strides, offsets, codes, constants compared between Go encoder and template decoder",
       "DESIGN.md 3/C10")
 
-for pid in ["C01","C02","C03","C04","C05","C06","C07","C08","C09","C11","C12","C14","C15","C16","C17"]:
+check("C01", "other",
+      "Decides the structural ways in which a worklist LALR(1) construction loses lookaheads (hence reduce actions, hence sentences): recursion guards that truncate FIRST, change-reporting mutators skipped by short-circuit evaluation or discarded inside fixed-point loops, states not re-queued when a merge adds lookaheads, stale memoised item lists, merge key = LR(0) kernel, closure/goto skeleton, one action per item; plus the parser table encoding and the reduce sequence / sugar shapes of the generated runtime. Each rule is a necessary condition whose violation loses or invents sentences for the grammars that exercise it.",
+      "Not decided: that the pieces compute the LALR(1) automaton of every grammar, i.e. parse(w) <=> w in L(G) itself (behavioural, needs running parsers against a reference). Precedence is excluded by the property.",
+      "custom typed-AST/CFG lints for worklist and fixed-point code (discarded change reports, short-circuited mutators, re-queue guards, cache coherence) + pattern rules on Closure/Goto/createActions + writer/reader agreement on the parser tables",
+      "DESIGN.md 3/C01")
+check("C04", "other",
+      "A missing lookahead hides a conflict and a spurious one invents it, so the LALR rules of C01 apply; in addition: every candidate action is kept per cell, a cell with more than one action sets HasConflicts unless the precedence rule settled it and the flag is only ever set (never overwritten), precedence is confined to shift/reduce pairs of one rule with explicit levels on both sides, and generation aborts with a diagnostic before any emit stage.",
+      "Not decided: the iff over all grammars and isomorphism with a reference LALR(1) automaton.",
+      "typed-AST/CFG lints on the conflict pipeline: who-may-delete, flag monotonicity, guard extraction and dominance, must-precede on the generation stages; plus the LALR lints of C01",
+      "DESIGN.md 3/C04")
+check("C05", "other",
+      "The precedence decision of resolveConflicts is abstracted to a table (condition => removed action) and compared with the documented one; the qualifier's transport from grammar text (token spelling, decimal level) to lr1.Prod is checked arm by arm; shift actions remember their productions; the guards confining precedence are present. One row of the table deviates on the pinned tree (equal level, @right) and is a recorded known finding.",
+      "Not decided: the grouping of concrete operator chains. Known finding PREC-1 equal-level-arm (cannot be repaired without editing a golden file).",
+      "decision-table extraction from the typed AST of resolveConflicts compared with the documented table; enum-to-enum switch checks; grammar-source token spelling lookup",
+      "DESIGN.md 3/C05")
+check("C08", "other",
+      "Decides the three mechanisms that carry the non-greedy mark from grammar to runtime: the loop exit is marked for exactly the cardinalities the front end produces for '*?' and '+?' (with a repo-wide contradiction lint: comparing a switch tag with a constant outside the enclosing case list), NonGreedy is accumulated wherever Accept is, the flag bit agrees between writer and reader and the runtime consumes input only when it is clear; plus the Thompson shapes of the repetition operators (LEX-1).",
+      "Not decided: that marking the loop exit yields the first occurrence of the terminator for every body/terminator pair; interaction of the mark with state merging.",
+      "contradiction lint (constantly-false comparison inside a case arm), sibling-field accumulation rule, writer/reader flag agreement, graph-shape abstraction of NFACons",
+      "DESIGN.md 3/C08")
+
+for pid in ["C02","C03","C06","C07","C09","C11","C12","C14","C15","C16","C17"]:
     na(pid, "check under construction in this session; see DESIGN.md section 3 for the planned rules")
